@@ -537,8 +537,9 @@ pub fn run(id: &str) {
             }
             verdict(id, bad.is_some(), &bad.unwrap_or_else(|| format!("{} rounds consistent", rounds)));
         }
-        // experiment: two same-hash faucet transactions (different sigs) in one batch, both orders
-        "X-dup-gf" => {
+        // F22: the grandfathered faucet transaction twice in one batch (identical, or two signature variants, both orders):
+        // accepted before the fix, with a transactions root that depended on the order
+        "F22" => {
             let (u0, _) = p.base(net, 10, 2);
             let mut g = grandfathered_faucet();
             g.sigs = vec![vec![1u8; 64].into()];
@@ -554,7 +555,7 @@ pub fn run(id: &str) {
             let a = run(&[g.clone(), g2.clone()]);
             let b = run(&[g2.clone(), g.clone()]);
             let c = run(&[g.clone(), g.clone()]);
-            verdict(id, a != b, &format!("[g,g']={:?} [g',g]={:?} [g,g]={:?}", a, b, c));
+            verdict(id, a.0 || b.0 || c.0 || a != b, &format!("accepted / coins root / transactions root / fee pool: [g,g']={:?} [g',g]={:?} [g,g]={:?}", a, b, c));
         }
         // two covenants of saturated weight: the plain sum overflows
         "F19" => {
